@@ -315,7 +315,14 @@ def rule_ranges(ctx: Ctx, rep: Report) -> None:
     rep.ob(rule, "wallet:position", any(c.subject == "index" and c.op == "<" and c.value == 0 for c in ca) and any("branch" in c.subject for c in ca), ap.where(), "a negative index or an unknown branch is refused")
 
 
+def rule_own_fields(ctx: Ctx, rep: Report) -> None:
+    """C14.own_fields: an object hands its own fields to the functions it delegates to (see sigcommon.rule_own_fields_forwarded)."""
+    from rules.sigcommon import rule_own_fields_forwarded
+    rule_own_fields_forwarded(ctx, rep, "C14.own_fields", ('btclib.descriptors.descriptors', 'btclib.descriptors.key_expression', 'btclib.wallet'), 20)
+
+
 RULES = [
+    ("C14.own_fields", rule_own_fields),
     ("C14.checksum_gate", rule_checksum_gate),
     ("C14.grammar", rule_grammar),
     ("C14.is_mine", rule_is_mine),
